@@ -47,7 +47,7 @@ shape("xml_newelement_transformer", "src/codemodder/codemods/xml_transformer.py"
       doc="NewElementXMLTransformer.endElement / add_new_element: children appended before the end tag of every parent_name element")
 
 shape("xml_pipeline_apply", "src/codemodder/codemods/xml_transformer.py", ["C19"],
-      "xml_pipeline_apply_shape", "as_written", "AsWritten",
+      "xml_pipeline_diff_guard", "xml_diff_guard", "DiffGuard",
       ["XMLTransformerPipeline.__init__", "XMLTransformerPipeline.apply"],
       doc="XMLTransformerPipeline.apply: TemporaryFile('w+'), defusedxml make_parser, failure => add_failure + None, "
           "`if not changes`, create_diff, dry_run guard around write_bytes")
